@@ -40,10 +40,18 @@ let case_timeout = try int_of_string (Sys.getenv "VERIF_CASE_TIMEOUT") with _ ->
    "prank" channel gets a larger budget, and so do the two channels that sort up to a
    million inductive numbers with the extracted merge sort (measured: at most about 15 s
    of CPU for a case of 1 000 003 nodes) *)
-let timeout_of chan =
+let timeout_of chan args =
+  (* artefacts: the budget grows with the length of the bit stream (the whole Java-written
+     data sets of the thorough tier are 7-9 Mbit and take about 30 s to decode and re-encode) *)
+  let art_factor =
+    if chan = "art" then
+      (match List.assoc_opt "glen" args with
+       | Some g -> (try 1 + int_of_string g / 1_000_000 with _ -> 1)
+       | None -> 1)
+    else 1 in
   float_of_int (if chan = "prank" then 6 * case_timeout
                 else if chan = "sccbig" || chan = "llpbig" then 10 * case_timeout
-                else case_timeout)
+                else art_factor * case_timeout)
 let set_timer secs =
   ignore (Unix.setitimer Unix.ITIMER_VIRTUAL { Unix.it_interval = 0.0; Unix.it_value = secs })
 
@@ -61,7 +69,7 @@ let () =
            try
              (* per-case watchdog: garbage produced by a broken implementation must not make
                 the model run away (e.g. an absurd interval length being expanded) *)
-             set_timer (timeout_of chan);
+             set_timer (timeout_of chan args);
              let r = (List.assoc chan channels) args in
              set_timer 0.0; r
            with
